@@ -4,6 +4,7 @@ Model: DTML/Stats.lean (rationals).  Mathlib tactics (ring, field_simp,
 linarith) and ℚ lemmas are used in this file only.
 -/
 import DTML.Stats
+import DTML.GenStats
 import Mathlib.Tactic.Ring
 import Mathlib.Tactic.FieldSimp
 import Mathlib.Tactic.Linarith
@@ -245,6 +246,85 @@ theorem median_spec (isInt : Bool) (xs : List ℚ) (hne : xs ≠ [])
         generalize (sorted xs)[xs.length / 2] = hi at hle ⊢
         have h3 : (((hi + lo) / 2).floor : ℚ) ≤ (hi + lo) / 2 := Int.floor_le ((hi + lo) / 2)
         linarith
+
+/-! ### The model is what the source says
+
+`GenStats.stepGen`, `derivedGen` and `medianGen` are regenerated on every run by translating the statements of
+`sequence_variables.statistics` in /repo (harness/trans_stats.py).  The three theorems below prove that they compute the
+hand-written model about which the property theorems above are stated; a change of `statistics()` changes the generated
+side and they stop checking. -/
+
+/-- one numeric item: the loop variables after the translated loop body are `Stats.step`'s (and the value is appended to
+`values`, whose length is the `count` used afterwards) — whether the item is an int (`s = item * int(item)`) or not -/
+theorem gen_statistics_step_is_model (isInt : Bool) (a : Acc) (vals : List ℚ) (s0 x : ℚ)
+    (hmm : a.min = none ↔ a.max = none) :
+    let g := GenStats.stepGen isInt ⟨a.sum, a.sumsq, s0, a.min, a.max, vals⟩ x
+    g.sum = (step a x).sum ∧ g.sumsq = (step a x).sumsq ∧ g.min = (step a x).min ∧ g.max = (step a x).max ∧
+    g.values = vals ++ [x] ∧ ((step a x).min = none ↔ (step a x).max = none) := by
+  obtain ⟨c, sm, sq, mn, mx⟩ := a
+  cases mn <;> cases mx <;> cases isInt <;> simp at hmm <;>
+    simp [GenStats.stepGen, step, GenStats.ltO, GenStats.gtO] <;> (try split_ifs <;> simp_all)
+
+/-- the whole accumulation loop over numeric items: sum, sum of squares, min, max as `Stats.pass`, `values` = the items
+(`min` and `max` are None together: the source sets both at the first numeric item) -/
+theorem gen_statistics_loop_is_model (isInt : Bool) (xs : List ℚ) :
+    let g := xs.foldl (GenStats.stepGen isInt) ⟨0, 0, 0, none, none, []⟩
+    g.sum = (pass xs).sum ∧ g.sumsq = (pass xs).sumsq ∧ g.min = (pass xs).min ∧ g.max = (pass xs).max ∧
+    g.values = xs := by
+  have gen : ∀ (ys : List ℚ) (a : Acc) (vals : List ℚ) (s0 : ℚ), (a.min = none ↔ a.max = none) →
+      let g := ys.foldl (GenStats.stepGen isInt) ⟨a.sum, a.sumsq, s0, a.min, a.max, vals⟩
+      g.sum = (ys.foldl step a).sum ∧ g.sumsq = (ys.foldl step a).sumsq ∧ g.min = (ys.foldl step a).min ∧
+      g.max = (ys.foldl step a).max ∧ g.values = vals ++ ys := by
+    intro ys
+    induction ys with
+    | nil => intro a vals s0 _; simp
+    | cons y ys ih =>
+      intro a vals s0 hmm
+      simp only [List.foldl_cons]
+      obtain ⟨h1, h2, h3, h4, h5, h6⟩ := gen_statistics_step_is_model isInt a vals s0 y hmm
+      generalize GenStats.stepGen isInt ⟨a.sum, a.sumsq, s0, a.min, a.max, vals⟩ y = g at h1 h2 h3 h4 h5
+      obtain ⟨gs, gq, g0, gmn, gmx, gv⟩ := g
+      simp only at h1 h2 h3 h4 h5
+      subst h1 h2 h3 h4 h5
+      have := ih (step a y) (vals ++ [y]) g0 h6
+      simpa using this
+  have := gen xs {} [] 0 (by simp)
+  simpa [pass] using this
+
+/-- the block of numeric statistics: mean, total, variance-n and its root, and for more than one value variance and its
+root (otherwise empty strings) — the values of `Stats.mean / varianceN / variance`.  The statement `if sumsq < 0:
+sumsq = 0.0` of the source is part of the translation; on exact numbers it never fires (`variance_nonneg`). -/
+theorem gen_statistics_derived_is_model (xs : List ℚ) (h : xs ≠ []) :
+    GenStats.derivedGen xs.length (pass xs).sum (pass xs).sumsq =
+      [("mean", .num (mean xs)), ("total", .num (pass xs).sum), ("variance-n", .num (varianceN xs)),
+       ("standard-deviation-n", .sqrt (varianceN xs))] ++
+      (if xs.length > 1 then [("variance", .num (variance xs)), ("standard-deviation", .sqrt (variance xs))]
+       else [("variance", .empty), ("standard-deviation", .empty)]) := by
+  have hv := (variance_nonneg xs h).1
+  have hv' : ¬ (pass xs).sumsq / (xs.length : ℚ) - (pass xs).sum / (xs.length : ℚ) * ((pass xs).sum / (xs.length : ℚ)) < 0 := by
+    have : varianceN xs = (pass xs).sumsq / (xs.length : ℚ) - (pass xs).sum / (xs.length : ℚ) * ((pass xs).sum / (xs.length : ℚ)) := by
+      simp [varianceN, mean]
+    rw [← this]; exact not_lt.mpr hv
+  simp only [GenStats.derivedGen]
+  rw [if_neg hv']
+  by_cases h1 : xs.length > 1
+  · simp [h1, variance, varianceN, mean]
+  · simp [h1, varianceN, mean]
+
+/-- the median rule: the translated rule applied to the sorted values is `Stats.median` -/
+theorem gen_statistics_median_is_model (isInt : Bool) (xs : List ℚ) (h : xs ≠ []) :
+    GenStats.medianGen isInt (sorted xs) xs.length (pass xs).min = median isInt xs := by
+  have hpos : 0 < xs.length := List.length_pos_iff.mpr h
+  have h0 : ¬ xs.length = 0 := by omega
+  simp only [GenStats.medianGen, median, h0, if_false]
+  by_cases h1 : xs.length = 1
+  · simp [h1]
+  · simp only [h1, if_false]
+    by_cases h2 : xs.length % 2 ≠ 0
+    · simp [h2]
+    · simp only [h2, if_false]
+      cases h3 : (sorted xs)[xs.length / 2]? <;> cases h4 : (sorted xs)[xs.length / 2 - 1]? <;>
+        cases isInt <;> simp
 
 /-- non-vacuity: a concrete list -/
 example : mean [1, 2, 3, 6] = 3 ∧ varianceN [1, 2, 3, 6] = 7 / 2 ∧ variance [1, 2, 3, 6] = 14 / 3 := by
